@@ -174,8 +174,8 @@ func Log(ctx *expr.Context, input system.Collection, args ...expr.Expression) (s
 	}
 	// Log number to base
 	res := logToBase(number, base)
-	// Validating NaN case
-	if math.IsNaN(res) {
+	// Validating NaN and non-finite cases
+	if math.IsNaN(res) || math.IsInf(res, 0) {
 		return system.Collection{}, nil
 	}
 	// Type conversion to system.Decimal
@@ -314,6 +314,10 @@ func Sqrt(ctx *expr.Context, input system.Collection, args ...expr.Expression) (
 	}
 	// Ceiling number
 	value := math.Sqrt(number)
+	// Validating non-finite case (the input is beyond the float64 range)
+	if math.IsNaN(value) || math.IsInf(value, 0) {
+		return system.Collection{}, nil
+	}
 	result := decimal.NewFromFloat(value)
 	return system.Collection{system.Decimal(result)}, nil
 }
